@@ -1,4 +1,4 @@
-(* C02/Proofs4.v — no lost wake-up: what can be proved, and the exact shape of what cannot. *)
+(* C02/Proofs4.v — no lost wake-up (full statement since the repair of F3, fix a6d2b6d09). *)
 From Verif Require Import Common.Base C02.Model C02.Proofs C02.Proofs2 C02.Proofs3.
 Require Import ZifyBool Permutation.
 Local Open Scope Z_scope.
@@ -6,8 +6,7 @@ Local Open Scope Z_scope.
 (* ---- a producer waiting for its result has its request somewhere ---------------------------------- *)
 Definition awaitinv (s : st) : Prop :=
   forall p, pget p (prods s) = Some PAwait ->
-    In p (map fst (items s)) \/ In p (map fst (inflight s)) \/ In p (map fst (results s)) \/
-    exists e, lock s = BSend (PendRes p e).
+    In p (map fst (items s)) \/ In p (map fst (inflight s)) \/ In p (map fst (results s)).
 
 Lemma awaitinv_init : awaitinv init.
 Proof. intros p H. discriminate. Qed.
@@ -15,47 +14,37 @@ Proof. intros p H. discriminate. Qed.
 Lemma wfr_eff_true c : wfr_eff c = true -> kind c = Mem /\ wfr c = true.
 Proof. unfold wfr_eff. destruct (kind c); [auto|discriminate]. Qed.
 
-Ltac await_old A q Hq :=
-  let H := fresh "HA" in
-  destruct (A q Hq) as [H|[H|[H|[? H]]]].
-
-Ltac await_done A G5 q Hq id :=
-  destruct (Nat.eq_dec q id) as [EQ|NE];
-  [ subst; first [ right; right; left; rewrite map_app; apply in_or_app; right; left; reflexivity
-                 | right; right; right; eexists; reflexivity
-                 | exfalso; let W := fresh "W" in pose proof (G5 _ Hq) as W; apply wfr_eff_true in W; destruct W; congruence ]
-  | await_old A q Hq;
-    [ left; assumption
-    | right; left; apply In_fst_remove_id; assumption
-    | right; right; left; first [assumption | rewrite map_app; apply in_or_app; left; assumption]
-    | congruence ] ].
-
 Lemma awaitinv_step c s l s' z :
   corrupt s = [] -> ghostinv c s -> awaitinv s -> step c s l = Some (s', z) -> awaitinv s'.
 Proof.
   intros NF (_ & _ & _ & _ & G5 & _) A H. revert A G5. unfold awaitinv. revert H.
-  step_cases; intros A G5 q Hq;
-    try (pget_split Hq; [try discriminate|]);
-    try (left; rewrite map_app; apply in_or_app; right; left; reflexivity);
-    try (await_old A q Hq;
-         [ first [ left; first [assumption | rewrite map_app; apply in_or_app; left; assumption]
-                 | simpl in HA; destruct HA as [HA|HA]; [right; left; left; exact HA | left; exact HA] ]
-         | first [ right; left; first [assumption | right; assumption]
-                 | idtac ]
-         | first [ right; right; left; first [assumption | rewrite map_app; apply in_or_app; left; assumption]
-                 | idtac ]
-         | first [ congruence | right; right; right; eexists; eassumption | idtac ] ]; fail).
-  all: try (rewrite ?Heql2, ?Heql1; apply A; assumption).
-  all: try (await_done A G5 q Hq id; fail).
-  all: try (await_old A q Hq; [left; assumption|right; left; assumption|
-         right; right; left; rewrite map_app; apply in_or_app; left; assumption|];
-       inversion HA; subst; right; right; left; rewrite map_app; apply in_or_app; right; left; reflexivity).
-  all: try (await_old A q Hq; [left; assumption|right; left; assumption| |right; right; right; eexists; eassumption];
-            right; right; left; apply In_fst_remove_id; [|assumption];
-            intros ->; rewrite Nat.eqb_refl in E; discriminate).
+  step_cases; intros A3 A2;
+    try assumption;
+    try (intros q Hq; rewrite pget_pset in Hq; destruct (Nat.eqb _ q) eqn:E;
+         [ try discriminate; apply Nat.eqb_eq in E; subst;
+           left; rewrite map_app; apply in_or_app; right; left; reflexivity
+         | destruct (A3 _ Hq) as [X|[X|X]];
+           [ left; first [exact X | rewrite map_app; apply in_or_app; left; exact X]
+           | right; left; exact X | right; right; exact X ] ]).
+  all: intros q Hq.
+  all: try (rewrite pget_pset in Hq; destruct (Nat.eqb _ q) eqn:E; [discriminate|];
+            destruct (A3 _ Hq) as [X|[X|X]];
+            [ left; exact X | right; left; exact X
+            | right; right; apply In_fst_remove_id; [intros ->; rewrite Nat.eqb_refl in E; discriminate|exact X] ]; fail).
+  all: destruct (A3 _ Hq) as [X|[X|X]].
+  all: try (rewrite ?Heql1, ?Heql2 in *; simpl in *;
+            first [ left; assumption | right; left; assumption | right; right; assumption
+                  | destruct X as [X|X]; [right; left; left; exact X | left; exact X]
+                  | destruct X as [X|X]; [right; left; left; exact X | tauto] | tauto ]; fail).
+  all: try (left; assumption).
+  all: try (right; right; first [assumption | rewrite map_app; apply in_or_app; left; assumption]).
+  all: destruct (Nat.eq_dec q id) as [->|NE];
+       try (right; left; apply In_fst_remove_id; assumption);
+       try (right; right; rewrite map_app; apply in_or_app; right; left; reflexivity);
+       try (exfalso; apply A2 in Hq; apply wfr_eff_true in Hq; destruct Hq; congruence).
 Qed.
 
-(* ---- S1-free runs: every waiting request fits the capacity ---------------------------------------- *)
+(* ---- every waiting request fits the capacity (both queues refuse oversized requests) ---------------------------- *)
 Definition fitinv (c : cfg) (s : st) : Prop :=
   forall p v sz, pget p (prods s) = Some v -> wsz v = Some sz -> sz <= cap c.
 
@@ -71,20 +60,18 @@ Proof.
     try (wsz_tac I6).
 Qed.
 
-(* ---- the wake-up invariant: unsignalled waiters never sit on an empty queue without a wake-up on its way *)
-Definition wakeinv (s : st) : Prop :=
-  0 < waiting s -> 0 < size s \/ tok s = true \/ 0 < cnt is_lefttok (prods s).
+(* ---- the wake-up invariant: counted waiters never sit on an empty queue without a wake-up waiting to be taken *)
+Definition wakeinv (s : st) : Prop := 0 < waiting s -> 0 < size s \/ 0 < sigs s.
 
 Lemma wakeinv_step c s l s' z :
   corrupt s = [] -> tokinv s -> sizeinv c s -> fitinv c s -> wakeinv s ->
   wf_label c l ->
   step c s l = Some (s', z) -> wakeinv s'.
 Proof.
-  intros NF (T1 & _ & T3 & _) (B1 & _ & _ & _ & B5 & B6) F N W1 H.
-  revert T1 T3 B1 B5 B6 F N W1. unfold wakeinv, fitinv, wf_label.
-  pose proof (cnt_nonneg is_lefttok (prods s)) as N1. revert N1. revert H.
-  step_cases; intros N1 T1 T3 B1 B5 B6 F N W1;
-    try (specialize (T3 _ eq_refl));
+  intros NF (T1 & T2 & _) (B1 & _ & _ & _ & B5 & B6) F N W1 H.
+  revert T1 T2 B1 B5 B6 F N W1. unfold wakeinv, fitinv, wf_label. revert H.
+  step_cases; intros T1 T2 B1 B5 B6 F N W1;
+    try (specialize (W1 eq_refl));
     try match goal with
     | H : pget ?p (prods s) = Some (?C ?sz) |- _ =>
         pose proof (B6 p _ sz H eq_refl); pose proof (F p _ sz H eq_refl)
@@ -92,10 +79,8 @@ Proof.
     try match goal with
     | H : find_id ?id (inflight s) = Some ?sz |- _ => pose proof (nonneg_find _ _ _ B5 H)
     end;
-    try (specialize (W1 eq_refl));
-    cnt_rw; unfold b2z in *; intros; auto; try lia; try (right; left; reflexivity);
-    try (left; lia);
-    try (destruct N as [?|[?|?]]; [lia|left; lia|right; left; assumption|right; right; lia]).
+    intros; auto; try lia;
+    try (destruct N as [?|?]; [lia|left; lia|right; lia]).
 Qed.
 
 Definition fullinv (c : cfg) (s : st) : Prop := allinv c s /\ awaitinv s /\ fitinv c s /\ wakeinv s.
@@ -121,50 +106,42 @@ Proof.
     + eapply wakeinv_step; eauto.
 Qed.
 
-(* awaitinv needs no hypothesis on sizes *)
 Lemma reach_awaitinv c s : 0 <= cap c -> reachable c s -> awaitinv s.
-Proof.
-  intros Hc R. assert (X : allinv c s /\ awaitinv s); [|exact (proj2 X)].
-  revert s R. apply reachP_ind.
-  - split; [|apply awaitinv_init].
-    split; [|split; [|split]]; [apply tokinv_init|apply sizeinv_init; exact Hc|apply ghostinv_init|apply wfrinv_init].
-  - intros s0 l s1 z R0 ((I1 & I2 & I3 & I4) & I5) W Hs. pose proof (reach_nofault _ c s0 (fun l H => H) R0) as NF. split.
-    + split; [|split; [|split]].
-      * eapply tokinv_step; eauto.
-      * eapply sizeinv_step; eauto.
-      * eapply ghostinv_step; eauto.
-      * eapply wfrinv_step; eauto.
-    + eapply awaitinv_step; eauto.
-Qed.
+Proof. intros Hc R. exact (proj1 (proj2 (reach_fit_inv _ _ Hc R))). Qed.
 
 (* ---- what quiescence means ---------------------------------------------------------------------------- *)
 Lemma quiescent_facts c s :
-  quiescent c s -> lock s = Free ->
-  items s = [] /\ inflight s = [] /\
+  quiescent c s ->
+  items s = [] /\ inflight s = [] /\ stopped s = false /\
   (forall p sz, pget p (prods s) <> Some (PLeftTok sz)) /\
   (forall p sz, pget p (prods s) <> Some (PLeftCtx sz)) /\
   (forall p sz, pget p (prods s) = Some (PInSelect sz) -> tok s = false /\ memb p (cancelled s) = false) /\
-  (forall p, pget p (prods s) = Some PAwait -> find_id p (results s) = None /\ memb p (cancelled s) = false).
+  (forall p, pget p (prods s) = Some PAwait -> find_id p (results s) = None /\ memb p (cancelled s) = false) /\
+  (forall k, cfind k (cons s) <> Some true).
 Proof.
-  intros Q L. split; [|split; [|split; [|split; [|split]]]].
-  - specialize (Q LRead eq_refl). unfold step, lock_free, read in Q. rewrite L in Q.
-    destruct (kind c), (items s) as [|[p sz] r], (stopped s); try discriminate; try reflexivity;
-      try (destruct r; discriminate).
+  intros Q.
+  assert (QR : items s = [] /\ stopped s = false).
+  { specialize (Q LRead eq_refl). unfold step, read in Q.
+    destruct (kind c), (items s) as [|[p sz] r], (stopped s); try discriminate; auto; destruct r; discriminate. }
+  destruct QR as [Q1 Qs].
+  split; [exact Q1|]. split; [|split; [exact Qs|split; [|split; [|split; [|split]]]]].
   - destruct (inflight s) as [|[id sz] r] eqn:E; [reflexivity|].
-    specialize (Q (LDone id 0) eq_refl). unfold step, lock_free, done in Q. rewrite L, E in Q.
+    specialize (Q (LDone id 0) eq_refl). unfold step, done in Q. rewrite E in Q.
     simpl in Q. rewrite Nat.eqb_refl in Q. discriminate.
-  - intros p sz H. specialize (Q (LRelockTok p) eq_refl). unfold step, lock_free in Q. rewrite L, H in Q.
-    destruct (find_id p (faulty s)); [destruct (size s + sz >? cap c)|]; discriminate.
-  - intros p sz H. specialize (Q (LRelockCtx p) eq_refl). unfold step, lock_free in Q. rewrite L, H in Q.
-    destruct (waiting s =? 0), (tok s); discriminate.
+  - intros p sz H. specialize (Q (LRelockTok p) eq_refl). unfold step in Q. rewrite H in Q.
+    destruct (0 <? sigs s); [|discriminate].
+    destruct (find_id p _); [destruct (_ >? _)|]; discriminate.
+  - intros p sz H. specialize (Q (LRelockCtx p) eq_refl). unfold step in Q. rewrite H in Q.
+    destruct (waiting s =? 0); discriminate.
   - intros p sz H. split.
-    + specialize (Q (LSelTok p) eq_refl). unfold step in Q. rewrite H, L in Q. destruct (tok s); [discriminate|reflexivity].
+    + specialize (Q (LSelTok p) eq_refl). unfold step in Q. rewrite H in Q. destruct (tok s); [discriminate|reflexivity].
     + specialize (Q (LSelCtx p) eq_refl). unfold step in Q. rewrite H in Q. destruct (memb p (cancelled s)); [discriminate|reflexivity].
   - intros p H. split.
     + specialize (Q (LResult p) eq_refl). unfold step, find_res in Q. rewrite H in Q.
       destruct (find_id p (results s)); [discriminate|reflexivity].
     + specialize (Q (LAwaitCtx p) eq_refl). unfold step in Q. rewrite H in Q.
       destruct (memb p (cancelled s)); [discriminate|reflexivity].
+  - intros k H. specialize (Q (LCWake k) eq_refl). unfold step in Q. rewrite H in Q. discriminate.
 Qed.
 
 Lemma cnt_zero_of_none f m :
@@ -175,56 +152,39 @@ Proof.
   destruct (cnt_pos_ex f m ND) as [p [v [H1 H2]]]; [lia|]. rewrite (H _ _ H1) in H2. discriminate.
 Qed.
 
-(* NO LOST WAKE-UP, the part that holds: in a quiescent state whose mutex is free — i.e. outside the F3
-   deadlock — and on runs without an oversized request on a persistent queue (S1), every producer has
-   returned: nobody is left blocked, with or without space, cancelled or not, waiting for a result or not. *)
-Lemma no_lost_wakeup_partial_l c s :
-  0 <= cap c -> reachable c s -> quiescent c s -> lock s = Free -> all_returned s.
+(* NO LOST WAKE-UP — the full statement (Model.no_lost_wakeup_statement): in every reachable state from which none of
+   the queue's own threads can move, every producer has returned: nobody is left blocked — with or without space,
+   cancelled or not, waiting for a result or not.  (Before fix a6d2b6d09 this was refuted: finding F3.) *)
+Lemma no_lost_wakeup_l c : 0 <= cap c -> no_lost_wakeup_statement c.
 Proof.
-  intros Hc R Q L.
+  intros Hc s R Q.
   destruct (reach_fit_inv _ _ Hc R) as (((T1 & T2 & T3 & T4) & (B1 & _ & B3 & _) & (_ & _ & _ & _ & _ & G6) & _) & A & F & N).
-  destruct (quiescent_facts _ _ Q L) as (Q1 & Q2 & Q3 & Q4 & Q5 & Q6).
+  destruct (quiescent_facts _ _ Q) as (Q1 & Q2 & _ & Q3 & Q4 & Q5 & Q6 & _).
+  assert (LT : cnt is_lefttok (prods s) = 0).
+  { apply cnt_zero_of_none; [exact G6|]. intros q w Hq. destruct w; try reflexivity. exfalso. eapply Q3; eassumption. }
+  assert (LC : cnt is_leftctx (prods s) = 0).
+  { apply cnt_zero_of_none; [exact G6|]. intros q w Hq. destruct w; try reflexivity. exfalso. eapply Q4; eassumption. }
+  assert (SZ : size s = 0) by (rewrite Q1, Q2 in B3; unfold sum_sz in B3; simpl in B3; lia).
   intros p v Hp. destruct v as [sz|sz|sz| |r]; try (exfalso; eapply Q3 + eapply Q4; eassumption); [| |eauto].
   - exfalso. destruct (Q5 _ _ Hp) as [Tk _].
-    assert (LT : cnt is_lefttok (prods s) = 0).
-    { apply cnt_zero_of_none; [exact G6|]. intros q w Hq. destruct w; try reflexivity. exfalso. eapply Q3; eassumption. }
-    assert (LC : cnt is_leftctx (prods s) = 0).
-    { apply cnt_zero_of_none; [exact G6|]. intros q w Hq. destruct w; try reflexivity. exfalso. eapply Q4; eassumption. }
     pose proof (cnt_ge_of_pget is_insel _ _ _ Hp eq_refl) as S1.
-    unfold sb in T2. rewrite L, Tk, LC in T2. simpl in T2.
-    rewrite Q1, Q2 in B3. unfold sum_sz in B3. simpl in B3.
-    destruct N as [N|[N|N]]; try lia; try congruence.
+    rewrite LT, LC in T3.
+    assert (G0 : sigs s = 0).
+    { destruct (Z_lt_dec 0 (sigs s)) as [P|P]; [|lia]. destruct (T4 P) as [X|X]; [congruence|lia]. }
+    assert (WP : 0 < waiting s) by lia.
+    destruct (N WP) as [X|X]; lia.
   - exfalso. destruct (Q6 _ Hp) as [Fr _].
-    destruct (A _ Hp) as [I|[I|[I|[e I]]]].
+    destruct (A _ Hp) as [I|[I|I]].
     + rewrite Q1 in I. exact I.
     + rewrite Q2 in I. exact I.
     + destruct (In_find_id _ _ I) as [e E]. congruence.
-    + congruence.
 Qed.
 
-(* ... and the exact shape of every quiescent state whose mutex is NOT free (finding F3): a Signal is blocked
-   on the full 1-slot channel, nobody is inside the select any more, and at least two waiters have left the
-   select on their context and can never re-acquire the mutex. *)
-Lemma deadlock_shape_l c s :
-  0 <= cap c -> reachable c s -> quiescent c s -> lock s <> Free ->
-  (exists k, lock s = BSend k) /\ tok s = true /\ cnt is_insel (prods s) = 0 /\
-  cnt is_leftctx (prods s) = waiting s + 2 /\ 0 <= waiting s.
-Proof.
-  intros Hc R Q L.
-  destruct (reachable_inv _ _ Hc R) as ((T1 & T2 & T3 & T4) & _ & (_ & _ & _ & _ & _ & G6) & _).
-  destruct (lock s) as [|k|p|] eqn:E; [congruence| |exfalso; eapply T4; reflexivity|exfalso; exact (reach_nobcast _ _ R E)].
-  pose proof (T3 _ eq_refl) as Tk.
-  assert (S0 : cnt is_insel (prods s) = 0).
-  { apply cnt_zero_of_none; [exact G6|]. intros q w Hq. destruct w; try reflexivity. exfalso.
-    specialize (Q (LSelTok q) eq_refl). unfold step in Q. rewrite Hq, Tk, E in Q. discriminate. }
-  split; [eauto|]. split; [exact Tk|]. split; [exact S0|].
-  unfold sb in T2. rewrite E, Tk, S0 in T2. simpl in T2. split; lia.
-Qed.
-
-(* every Done (and the persistent queue's size reset) leaves a token behind if somebody was still counted *)
+(* every Done (and the persistent queue's size reset) issues a wake-up if somebody is still counted, and the bell
+   lets any producer inside the select go and look *)
 Lemma done_signals_l c s id e s' z :
   step c s (LDone id e) = Some (s', z) -> 0 < waiting s ->
-  tok s' = true /\ waiting s' = waiting s - 1.
+  tok s' = true /\ waiting s' = waiting s - 1 /\ sigs s' = sigs s + 1.
 Proof.
   intros H. revert H. step_cases; intros W; try lia; auto.
 Qed.
@@ -233,7 +193,5 @@ Lemma token_lets_waiter_proceed_l c s p sz :
   pget p (prods s) = Some (PInSelect sz) -> tok s = true ->
   exists s', step c s (LSelTok p) = Some (s', 0) /\ pget p (prods s') = Some (PLeftTok sz).
 Proof.
-  intros H T. unfold step. rewrite H, T.
-  destruct (lock s); eexists; (split; [reflexivity|]); unfold deliver; try destruct k;
-    ss; try (destruct (waiting s - 1 =? 0)); ss; apply pget_pset_eq.
+  intros H T. unfold step. rewrite H, T. eexists. split; [reflexivity|]. ss. apply pget_pset_eq.
 Qed.
